@@ -47,7 +47,8 @@ Renames == { [rename |-> "", renameIdent |-> ""],
 (* parameter lists: expected identifier text; vdrive turns "String" into an
    inline string schema, "i64" into an inline integer schema, "P" into a
    $ref to a plain definition P *)
-ParamLists == { << >>, <<"::std::string::String">>, <<"P">>, <<"i64", "P">>, <<"P", "::std::string::String">> }
+ParamLists == { << >>, <<"::std::string::String">>, <<"P">>, <<"i64", "P">>, <<"P", "::std::string::String">>,
+                <<"User">>, <<"i64", "User">> }   \* "User": the definition that contains the annotated schema
 
 Ext(cr, head, rest, last, req, reqOk, hasVersion, params) ==
     [crate |-> cr.crate, ident |-> cr.ident, head |-> head, rest |-> rest, last |-> last,
